@@ -424,6 +424,14 @@ def rule_chunks_enumerate(text, dropped):
     return new
 
 
+def rule_pub_fields(text, dropped):
+    """struct fields made `pub` (visibility only; lets spec functions and contracts name them)."""
+    new, n = re.subn(r'(?m)^(\s+)([a-z_][a-z0-9_]*): ', lambda m: f'{m.group(1)}pub {m.group(2)}: ', text)
+    if n:
+        dropped.append(('pub-fields', f'{n} fields made pub'))
+    return new
+
+
 RULES = {
     'drop-tracing': rule_drop_tracing,
     'assert-eq': rule_assert_eq,
@@ -438,6 +446,7 @@ RULES = {
     'anon-lifetime': rule_anon_lifetime,
     'drop-metrics': rule_drop_metrics,
     'for-tuple-pattern': rule_for_tuple_pattern,
+    'pub-fields': rule_pub_fields,
     'chunks-enumerate': rule_chunks_enumerate,
 }
 
